@@ -512,11 +512,20 @@ where
 	// currently records for them
 	let chain_commits: Vec<pedersen::Commitment> = chain_outs.iter().map(|o| o.commit).collect();
 
+	let mut found_parents: HashMap<Identifier, u32> = HashMap::new();
+
 	// check all definitive outputs exist in the wallet outputs
 	for deffo in chain_outs.into_iter() {
 		let matched_out = wallet_outputs.iter().find(|wo| wo.commit == deffo.commit);
 		match matched_out {
 			Some(s) => {
+				// an output the wallet already holds counts towards the highest path
+				// in use as well: an earlier scan may have restored it and been
+				// interrupted before the account's child index was saved
+				let max_child = found_parents.entry(deffo.key_id.parent_path()).or_insert(0);
+				if deffo.n_child > *max_child {
+					*max_child = deffo.n_child;
+				}
 				if s.output.status == OutputStatus::Spent {
 					accidental_spend_outs.push((s.output.clone(), deffo.clone()));
 				}
@@ -550,8 +559,6 @@ where
 		batch.save(o)?;
 		batch.commit()?;
 	}
-
-	let mut found_parents: HashMap<Identifier, u32> = HashMap::new();
 
 	// Restore missing outputs, adding transaction for it back to the log
 	for m in missing_outs.into_iter() {
